@@ -180,6 +180,26 @@ def rule_sib(ctx, f):
                 whole = r0[0] == 1 and all(e[0] == "deref" for e in r0[1:])
         if not whole:
             strips = strips + ["a sub-slice of the parameter"]
+        # ... and the unit decoder it calls decodes all of what it is given
+        uc = f.body("font::utf16be_to_char")
+        if uc is None:
+            ctx.lost("C19-SIB", "font::utf16be_to_char")
+        else:
+            cs = sorted({last_seg(F.callee_name(t)) for bb in f.with_closures(uc["id"]) for bi, t in F.calls(bb)} & {"strip_prefix", "starts_with", "trim_start_matches", "skip", "split_at", "split_first", "get"})
+            cfl = Flow(uc)
+            whole2 = False
+            for bi, t in F.calls(uc):
+                if last_seg(F.callee_name(t)) in ("chunks_exact", "chunks") and t["args"] and F.op_place(t["args"][0]):
+                    r1 = cfl.resolve(F.op_place(t["args"][0]))
+                    for _ in range(4):
+                        d1 = cfl.defs.get(r1[0], [])
+                        if r1[0] != 1 and len(d1) == 1 and d1[0][0] == "assign" and not d1[0][3] and d1[0][2][0] == "ref":
+                            r1 = cfl.resolve(list(d1[0][2][1]) + r1[1:])
+                        else:
+                            break
+                    whole2 = r1[0] == 1 and all(e[0] == "deref" for e in r1[1:])
+            if cs or not whole2:
+                strips = strips + ["%s in utf16be_to_char" % (", ".join(cs) or "a sub-slice")]
         ctx.check(not strips, "C19-SIB", "utf16be_to_string#no-bom-strip", "the text decoder of the character-map reader removes a prefix (%s) that the writer never adds: a mapped text "
                   "that starts with U+FEFF does not read back" % ", ".join(strips), ub["span"], detail="decodes every code unit it is given")
     # the reader accepts both range forms: a String arm and an Array arm for the third operand
@@ -328,6 +348,20 @@ def rule_read(ctx, f):
     ctx.check(ok, "C19-READ", "parse_cmap#string-form-step", "the string range form does not step the text by incrementing its last byte between codes", r["span"], detail="*last += 1 in the loop of an insert")
     zips = [bi for bi, t in F.calls(r) if last_seg(F.callee_name(t)) == "zip"]
     ctx.check(bool(zips), "C19-READ", "parse_cmap#array-form-zip", "the array range form does not pair the code range with the array's elements", r["span"], detail="(start..=end).zip(array)")
+
+
+def rule_font_reader(ctx, f):
+    ctx.rule("C19-PROV-read", "the font reader hands /Widths on as it was read: Font::from_primitive does not shorten, pad or re-order the list (the width of /LastChar is its "
+             "last element)")
+    b = f.impl_method("object::Object", "font::Font", "from_primitive")
+    if b is None:
+        ctx.lost("C19-PROV-read", "<Font as Object>::from_primitive")
+        return
+    cut = sorted({last_seg(F.callee_name(t)) for bb in f.with_closures(b["id"]) for bi, t in F.calls(bb)
+                  if last_seg(F.callee_name(t)) in ("truncate", "drain", "split_off", "resize", "retain", "remove", "pop", "swap_remove", "reverse", "sort", "dedup", "clear", "insert") and
+                  "Vec<f32>" in (F.callee_name(t) + t.get("callee_full", "") + " ".join(a["s"] for a in t.get("arg_tys", [])))})
+    ctx.check(not cut, "C19-PROV-read", "Font::from_primitive#widths-as-read", "the font reader changes the /Widths list it has read (%s): codes at the end of the declared range lose "
+              "their width" % ", ".join(cut), b["span"], detail="info.widths untouched")
 
 
 def rule_prov(ctx, f):
@@ -517,6 +551,7 @@ def run(ctx):
     rule_sib(ctx, f)
     rule_read(ctx, f)
     rule_prov(ctx, f)
+    rule_font_reader(ctx, f)
     rule_get_set(ctx, f)
     return ctx.finish(
         "Static analysis of font.rs: token-adjacency / vocabulary summary of the character-map writer against the keywords and byte classes of "
